@@ -308,9 +308,6 @@ func runSched(sc *schedCase) (kit.Case, error) {
 	if clockSteps > 0 {
 		tags = append(tags, "clock-steps")
 	}
-	if expiredEntryWindow(sc, ps, obs) {
-		tags = append(tags, "EXPDEL:expired-entry-dropped-under-a-read-in-flight")
-	}
 	if sc.Init < 0 {
 		tags = append(tags, "init:absent")
 	}
@@ -322,40 +319,6 @@ func runSched(sc *schedCase) (kit.Case, error) {
 		Desc:       sc,
 		Tags:       tags,
 	}, nil
-}
-
-// expiredEntryWindow recognises finding C07-EXPDEL by the observed timeline: some reader's read went to the
-// storage before a clock step and returned after a later TTLGet of another reader was answered "not found"
-// from the cache (the expired entry) - the window in which the dropped entry no longer guards the fill
-func expiredEntryWindow(sc *schedCase, ps, obs []string) bool {
-	opIdx := map[string]int{} // reads started per reader
-	ttlHitNone := func(k int) bool {
-		if !strings.HasPrefix(obs[k], "SGetHit") || !strings.HasSuffix(obs[k], " None") || !strings.HasPrefix(ps[k], "(PR ") {
-			return false
-		}
-		return true
-	}
-	_ = opIdx
-	for a := range obs {
-		if !strings.HasPrefix(obs[a], "SGetStart") {
-			continue
-		}
-		clock, hit := -1, -1
-		for k := a + 1; k < len(obs); k++ {
-			switch {
-			case obs[k] == "SClock" && clock < 0:
-				clock = k
-			case clock >= 0 && hit < 0 && ps[k] != ps[a] && ttlHitNone(k):
-				hit = k
-			case hit >= 0 && ps[k] == ps[a] && strings.HasPrefix(obs[k], "SGetDone (Some"):
-				return true
-			}
-			if ps[k] == ps[a] && strings.HasPrefix(obs[k], "SGetDone") {
-				break
-			}
-		}
-	}
-	return false
 }
 
 // lastStepOf: the observation of the most recent earlier step of process who
